@@ -235,6 +235,8 @@ def run_for(ctx, pid):
                 break
     if pid in ("C04", "C06"):
         gc.coq_spec_check(ctx, res)
+    if pid == "C11":
+        gc.coq_spec_check(ctx, res, what="wildcards")
     evaluate(ctx, pid, res)
 
 
@@ -246,6 +248,8 @@ def replay_for(ctx, pid, data):
     res = gc.run_graph(ctx, [d["model"]], n_orders=6, repeat=5)
     if pid in ("C04", "C06"):
         gc.coq_spec_check(ctx, res)
+    if pid == "C11":
+        gc.coq_spec_check(ctx, res, what="wildcards")
     evaluate(ctx, pid, res)
     print(json.dumps(d["model"]))
     for (o, a, b) in res[0]["ordered"]:
